@@ -106,9 +106,12 @@ impl From<LexicaseError> for HErr {
     fn from(e: LexicaseError) -> Self {
         match e {
             LexicaseError::EmptyPopulation(_) => HErr(Kind::Empty),
-            LexicaseError::MissingTestCase { total_cases, current_index } => {
+            LexicaseError::MissingTestCase { total_cases, current_index, .. } => {
                 HErr(Kind::MissingCase { total: total_cases, index: current_index })
             }
+            // (a maintainer may add variants / mark the enum non_exhaustive)
+            #[allow(unreachable_patterns)]
+            other => HErr(kind_from_debug(&format!("{other:?}"))),
         }
     }
 }
@@ -118,6 +121,8 @@ impl From<SelectionError<HErr>> for HErr {
         match e {
             SelectionError::Selector(h) => h,
             SelectionError::ZeroWeight(_) => HErr(Kind::ZeroWeight),
+            #[allow(unreachable_patterns)]
+            _ => HErr(Kind::Unknown("unknown SelectionError variant".into())),
         }
     }
 }
@@ -127,6 +132,8 @@ impl From<SelectionError<WeightedPairError<HErr, HErr>>> for HErr {
         match e {
             SelectionError::Selector(WeightedPairError::A(h) | WeightedPairError::B(h)) => h,
             SelectionError::ZeroWeight(_) => HErr(Kind::ZeroWeight),
+            #[allow(unreachable_patterns)]
+            _ => HErr(Kind::Unknown("unknown SelectionError / WeightedPairError variant".into())),
         }
     }
 }
@@ -140,6 +147,8 @@ impl From<DynWeightedError> for HErr {
                 Ok(h) => *h,
                 Err(b) => HErr(Kind::Unknown(b.to_string())),
             },
+            #[allow(unreachable_patterns)]
+            _ => HErr(Kind::Unknown("unknown DynWeightedError variant".into())),
         }
     }
 }
@@ -460,6 +469,11 @@ where
     let mut expected = Vec::new();
     let mut soft = false;
     allowed(sel, &lens, &mut expected, &mut soft);
+    if lens.is_empty() && !expected.contains(&Kind::Empty) {
+        // whatever the combination: for an empty population "empty population" is a documented error (a
+        // combinator may notice the empty population itself before consulting any member)
+        expected.push(Kind::Empty);
+    }
     let mut rng = spec.build();
     // in a third of the runs the selector VALUE is used once before the checked call, on a different
     // population (other size, two more cases per individual): a selector must not carry anything over
